@@ -191,12 +191,12 @@ fn leaf_template(t: usize, k: &dyn Fn(usize) -> String, older: u32, after: u32, 
     }
 }
 
-fn shift(p: &Pol, off: usize) -> Pol {
+fn remap(p: &Pol, lk: &[usize]) -> Pol {
     match p {
-        Pol::Key(i) => Pol::Key(i + off),
-        Pol::And(v) => Pol::And(v.iter().map(|x| shift(x, off)).collect()),
-        Pol::Or(v) => Pol::Or(v.iter().map(|x| shift(x, off)).collect()),
-        Pol::Thresh(k, v) => Pol::Thresh(*k, v.iter().map(|x| shift(x, off)).collect()),
+        Pol::Key(i) => Pol::Key(lk[*i]),
+        Pol::And(v) => Pol::And(v.iter().map(|x| remap(x, lk)).collect()),
+        Pol::Or(v) => Pol::Or(v.iter().map(|x| remap(x, lk)).collect()),
+        Pol::Thresh(k, v) => Pol::Thresh(*k, v.iter().map(|x| remap(x, lk)).collect()),
         other => other.clone(),
     }
 }
@@ -427,23 +427,32 @@ pub fn make_input(pool: &Pool, rng: &mut Rng, ch: &Choice, next_key: &mut dyn Fn
             let mut leaves_abs = Vec::new();
             let mut leaf_data = Vec::new();
             let mut pols = vec![Pol::Key(0)];
+            let mut prev_first: Option<usize> = None;
             for (li, lt) in ch.leaf_templates.iter().enumerate() {
                 let (_, _, nk) = leaf_template(*lt, &|_| String::new(), ch.older, ch.after, &hx);
-                let off = keys.len();
-                for _ in 0..nk {
-                    keys.push(next_key());
+                // instance-key indices of this leaf; sometimes its first key is the first key of
+                // the previous leaf (one key in several leaves)
+                let mut lk: Vec<usize> = Vec::new();
+                for n in 0..nk {
+                    if n == 0 && prev_first.is_some() && rng.chance(1, 3) {
+                        lk.push(prev_first.unwrap());
+                    } else {
+                        lk.push(keys.len());
+                        keys.push(next_key());
+                    }
                 }
-                let (ld, p, _) = leaf_template(*lt, &|i| pool.keys[keys[off + i]].desc.clone(), ch.older, ch.after, &hx);
+                prev_first = Some(lk[0]);
+                let (ld, p, _) = leaf_template(*lt, &|i| pool.keys[keys[lk[i]]].desc.clone(), ch.older, ch.after, &hx);
                 let (lc, _, _) =
-                    leaf_template(*lt, &|i| hex(&pool.keys[keys[off + i]].xonly().serialize()), ch.older, ch.after, &hx);
-                let names = ["B", "C", "D", "E", "F", "G", "H", "I", "J", "K"];
-                let (la, _, _) = leaf_template(*lt, &|i| names[(off - 1 + i) % 10].to_string(), ch.older, ch.after, &["H".into(), "H".into(), "H".into(), "H".into()]);
+                    leaf_template(*lt, &|i| hex(&pool.keys[keys[lk[i]]].xonly().serialize()), ch.older, ch.after, &hx);
+                let names = ["A", "B", "C", "D", "E", "F", "G", "H", "I", "J", "K"];
+                let (la, _, _) = leaf_template(*lt, &|i| names[lk[i] % 11].to_string(), ch.older, ch.after, &["H".into(), "H".into(), "H".into(), "H".into()]);
                 let script = Miniscript::<XOnlyPublicKey, Tap>::from_str(&lc).map_err(|e| format!("{}: {}", lc, e))?.encode();
-                let p = shift(&p, off);
+                let p = remap(&p, &lk);
                 pols.push(p.clone());
                 leaves_desc.push(ld);
                 leaves_abs.push(la);
-                leaf_data.push((depths[li], script, p, (off..off + nk).collect::<Vec<usize>>()));
+                leaf_data.push((depths[li], script, p, lk));
             }
             let tree = |v: &Vec<String>| -> String {
                 match v.len() {
